@@ -17,20 +17,22 @@ VARIABLES i,
   answers,    \* function: request id -> [kind, calls (answered ok), ncells]
   results,    \* function: call -> sequence of [kind, row, ncells]
   closed,     \* the client closed its end
-  lastQ       \* last quiescent observation or <<>>
+  lastQ,      \* last quiescent observation or <<>>
+  lastR       \* last second look at a result a caller holds, or <<>>
 
-vars == <<i, submitted, cancelled, reqs, answers, results, closed, lastQ>>
+vars == <<i, submitted, cancelled, reqs, answers, results, closed, lastQ, lastR>>
 ToSet(s) == {s[j] : j \in 1..Len(s)}
 Empty == [x \in {} |-> 0]
 Ext(f, k, v) == [x \in DOMAIN f \cup {k} |-> IF x = k THEN v ELSE f[x]]
 
 Reset == /\ submitted' = {} /\ cancelled' = {} /\ reqs' = Empty /\ answers' = Empty /\ results' = Empty
-         /\ closed' = FALSE /\ lastQ' = <<>>
+         /\ closed' = FALSE /\ lastQ' = <<>> /\ lastR' = <<>>
 Init == /\ i = 1 /\ submitted = {} /\ cancelled = {} /\ reqs = Empty /\ answers = Empty /\ results = Empty
-        /\ closed = FALSE /\ lastQ = <<>>
+        /\ closed = FALSE /\ lastQ = <<>> /\ lastR = <<>>
 
 Next ==
   /\ i <= Len(T) /\ i' = i + 1
+  /\ lastR' = IF T[i].ev = "recheck" THEN <<T[i]>> ELSE <<>>
   /\ LET e == T[i] IN
      CASE e.ev = "reset" -> Reset
        [] e.ev = "submit" -> /\ submitted' = submitted \cup {e.call}
@@ -94,6 +96,13 @@ QuiescentOK ==
 UnansweredGetConnError ==
   \A c \in DOMAIN results : \A k \in 1..Len(results[c]) :
      (\A id \in DOMAIN answers : c \notin ToSet(reqs[id])) => results[c][k].kind = "server"
+
+(* C02: what a caller was given stays what it was given (it is not overwritten by a later response) *)
+StableResult ==
+  lastR # <<>> =>
+     LET e == lastR[1] IN
+       /\ e.call \in DOMAIN results /\ e.k <= Len(results[e.call])
+       /\ results[e.call][e.k].row = e.row /\ results[e.call][e.k].ncells = e.ncells
 
 StepIndex == i
 Accepted == TLCGet("stats").diameter = Len(T) + 1
